@@ -80,6 +80,18 @@ Theorem current_after_history : forall ops d, current d -> current (fold_left ap
 Proof. exact current_history_all. Qed.
 Print Assumptions current_after_history.
 
+(* every structural edit of the public API ends in the same recomputation (GroupMixin._update_psd_record):
+   whatever forest the edit leaves and whatever fields its layers carried, the result is current, and it
+   depends on the tree only *)
+Theorem current_after_any_structural_edit : forall m f', current (recompute m f').
+Proof. exact current_recompute. Qed.
+Print Assumptions current_after_any_structural_edit.
+
+Theorem recompute_depends_on_tree_only : forall m f g,
+  map erase_t f = map erase_t g -> recompute m f = recompute m g.
+Proof. exact recompute_ignores_old_fields. Qed.
+Print Assumptions recompute_depends_on_tree_only.
+
 Theorem current_means_spec : forall d l, current d -> sublevel (lay d) l -> level_ok (mode d) l.
 Proof. exact current_levels. Qed.
 Print Assumptions current_means_spec.
